@@ -159,7 +159,7 @@ pub fn c16_q_tpl_eq_by_meaning_3x2() { eq_body(1, 3, 2); }
 
 #[kani::proof]
 #[kani::unwind(13)]
-pub fn c16_q_tpl_eq_by_meaning_2x3() { eq_body(1, 2, 3); }
+pub fn c16_t_tpl_eq_by_meaning_2x3() { eq_body(1, 2, 3); }
 
 /// 3 parts each, <= 2 characters per fragment
 #[kani::proof]
@@ -169,7 +169,7 @@ pub fn c16_t_tpl_eq_by_meaning_3x3() { eq_body(2, 3, 3); }
 /// symmetric
 #[kani::proof]
 #[kani::unwind(13)]
-pub fn c16_q_tpl_eq_symmetric() {
+pub fn c16_t_tpl_eq_symmetric() {
     let ta = sym_tpl(2, 1);
     let tb = sym_tpl(1, 1);
     let pa = build(&ta);
@@ -187,7 +187,7 @@ pub fn c16_q_tpl_eq_symmetric() {
 /// reflexive (two templates over the same parts, and a template with itself)
 #[kani::proof]
 #[kani::unwind(13)]
-pub fn c16_q_tpl_eq_reflexive() {
+pub fn c16_t_tpl_eq_reflexive() {
     let ta = sym_tpl(3, 2);
     let pa = build(&ta);
     let a = Template::new_ref(&pa[..ta.n]);
@@ -346,7 +346,7 @@ pub fn c16_q_tpl_render_protocol_2parts() { render_protocol(2, false); }
 
 #[kani::proof]
 #[kani::unwind(8)]
-pub fn c16_q_tpl_render_protocol_by_ref() { render_protocol(2, true); }
+pub fn c16_t_tpl_render_protocol_by_ref() { render_protocol(2, true); }
 
 #[kani::proof]
 #[kani::unwind(8)]
@@ -357,15 +357,15 @@ pub fn c16_t_tpl_render_protocol_3parts() { render_protocol(3, false); }
 /// visitor, which CBMC does not finish; the value path of the protocol is decided by
 /// `c16_q_tpl_render_protocol_*` with a recording writer.)
 #[kani::proof]
-#[kani::unwind(26)]
+#[kani::unwind(14)]
 pub fn c16_q_tpl_render_display() {
-    let s = sym_tpl(3, 1);
+    let s = sym_tpl(2, 1);
     let parts = build(&s);
     let tpl = Template::new_ref(&parts[..s.n]);
-    let mut out = Buf::<24>::new();
+    let mut out = Buf::<12>::new();
     let r = write!(out, "{}", tpl.render(emit_core::empty::Empty));
     assert!(r.is_ok() && !out.overflow);
-    let mut exp = Buf::<24>::new();
+    let mut exp = Buf::<12>::new();
     let mut i = 0;
     while i < 3 {
         if i < s.n {
@@ -381,10 +381,10 @@ pub fn c16_q_tpl_render_display() {
     }
     assert!(out.n == exp.n, "rendered length");
     let mut i = 0;
-    while i < 24 {
+    while i < 12 {
         if i < out.n { assert!(out.b[i] == exp.b[i], "rendered bytes"); }
         i += 1;
     }
-    kani::cover!(s.n == 3 && s.hole[1] && !s.hole[0] && s.frag[0].n > 0, "hole between text");
+    kani::cover!(s.n == 2 && s.hole[1] && !s.hole[0] && s.frag[0].n > 0, "text then hole");
     kani::cover!(s.n >= 1 && s.hole[0] && s.label[0] == 2, "empty label");
 }
